@@ -549,8 +549,26 @@ func (r *c15Run) exec(op *c15Op, last bool) {
 				}
 			}
 		}
+		// no lock-out: a blocked endpoint whose probe interval has elapsed and whose ReConnect will succeed must be queued
+		var due []exp
+		nowSec := time.Now().Unix()
+		for _, e := range r.mgr.Registry() {
+			ei := c15EidOfHost(e)
+			if ai, ok := before.attached[ei]; ok && ai >= 0 && r.reach[ei] && !r.shrunk {
+				h := r.adps[ai].VerifC15Health()
+				if !h.Status && !h.Closed && nowSec-h.LastBlockTime >= 30 {
+					due = append(due, exp{ai, ei})
+				}
+			}
+		}
 		r.mgr.CheckStatus()
 		s := r.snap()
+		for _, d := range due {
+			if s.pset&(1<<uint(d.e)) == 0 {
+				r.fail("failover/probe-not-requested-when-due", fmt.Sprintf("endpoint %d is blocked, its last block/probe time is >= 30 s ago and it is reachable, but after the status check no probe of it is queued (dedupe set %b, queue length %d)", d.e, s.pset, s.q))
+			}
+			r.classes["probe-due"] = true
+		}
 		for _, m := range must {
 			if r.adps[m.ai].VerifC15Health().Status || (!r.shrunk && r.inAnySelector(s, m.e)) {
 				r.fail("failover/streak-not-blocked", fmt.Sprintf("endpoint %d had %d consecutive failures and no success for >= 5 s, but after the status check status=%v, selectors rr=%b ch=%b mh=%b", m.e, r.sh[m.ai].streak, r.adps[m.ai].VerifC15Health().Status, s.rr, s.ch, s.mh))
